@@ -27,7 +27,10 @@ NEURONS = {"IF": ["r", "v_threshold"], "LI": ["tau", "r", "v_leak"],
 SHAPES = [(), (1,), (2,), (3,), (1, 1), (1, 2), (2, 1), (2, 2), (2, 3), (3, 2), (1, 2, 3), (2, 2, 2), (2, 1, 3)]
 PADS = ["same", "valid", "Same", "SAME", " same", "same ", "valid\n", "", "full", "causal", "VALID",
         {"b": "same"}, {"b": "valid"}, {"b": "full"}, {"npstr": "same"}, {"npstr": "Valid"},
-        {"npbytes": "same"}, 0, 1, (1, 1)]
+        {"npbytes": "same"}, 0, 1, (1, 1),
+        # words that occur in the error message / documentation of the parameter, and other plausible spellings
+        "int", "str", "tuple", "'same'", "same, valid", "same|valid", "same or valid", "None", "zeros", "reflect", "s", "sam",
+        "samee", "valid ", "\tvalid", "same\n", "sa\u006de", "s\u0430me", "\uff53\uff41\uff4d\uff45", "valid\x00"]
 
 
 def gen(rng, tier):
@@ -41,6 +44,12 @@ def gen(rng, tier):
         N = 2500
     else:
         N = 330
+    # every padding value x {with, without input_shape} x {Conv1d, Conv2d}, in random order (what is accepted must not depend
+    # on what was rejected earlier in the process)
+    sweep = [(p, ws, cls) for p in PADS for ws in (False, True) for cls in ("Conv1d", "Conv2d")]
+    rng.shuffle(sweep)
+    for p, ws, cls in sweep:
+        cases.append({"kind": "padding", "cls": cls, "pad": p, "with_shape": ws})
     for _ in range(N):
         r = rng.random()
         if r < 0.45:
@@ -58,6 +67,15 @@ def gen(rng, tier):
                                 {"f": "arr", "shape": list(rng.choice(SHAPES))},
                                 {"f": "arr", "shape": list(rng.choice(SHAPES))}])
             cases.append({"kind": "neuron", "cls": cls, "shapes": shapes, "w_in": w})
+            if cls == "CubaLIF" and rng.random() < 0.6:
+                # ONE parameter (each position in turn, v_threshold included) with a shape that broadcasts to the common one,
+                # together with an explicit input weight of the full shape
+                base2 = rng.choice([s2 for s2 in SHAPES if len(s2) >= 1])
+                shapes2 = [list(base2) for _ in NEURONS[cls]]
+                odd = rng.choice([[], [1], [1] * len(base2), list(base2[-1:]) if len(base2) > 1 else [1]])
+                shapes2[rng.randrange(len(shapes2))] = odd
+                cases.append({"kind": "neuron", "cls": cls, "shapes": shapes2,
+                              "w_in": rng.choice([{"f": "arr", "shape": list(base2)}, {"f": "arr", "shape": list(base2)}, {"f": "arr", "shape": odd}])})
         elif r < 0.65:
             rank = rng.randrange(0, 6)
             cases.append({"kind": "linear", "cls": rng.choice(["Affine", "Linear"]),
